@@ -40,6 +40,13 @@ type world struct {
 	sig   []string // canonical description of the case (for the distinct count)
 	mode  mpt.TrieMode
 	idx   uint32 // last Flush index ("block height"), increasing
+	lazy  bool   // a DataMPT record was dropped from the store: only the lazy model is meaningful,
+	// the reference map and the content oracles are off (operations may legitimately fail)
+	errs int // operations that returned an error since then
+	// a Delete / PutBatch failed: they change nodes in place before they fail and leave the cached hashes
+	// of the nodes above as they were (trie.go:297-341, batch.go:166-168), so StateRoot() may answer from
+	// a stale cache. Hash caches are not modelled: no root line from then on.
+	stale bool
 }
 
 // setMode restarts the (still empty) case in another storage mode. The expanded-trie model does not
@@ -94,7 +101,10 @@ func (w *world) put(key, val []byte) {
 		w.dirty = true
 	} else {
 		w.o.Count("put:" + obs)
-		if len(key) != 0 && len(key) <= mpt.MaxKeyLength && len(val) <= mpt.MaxValueLength {
+		if w.lazy {
+			w.errs++
+			w.o.Count("lazy:put:" + obs)
+		} else if len(key) != 0 && len(key) <= mpt.MaxKeyLength && len(val) <= mpt.MaxValueLength {
 			w.o.Fail("put-rejected", w.k, "Put(%x, %d bytes) = %s", key, len(val), obs)
 		}
 	}
@@ -119,7 +129,11 @@ func (w *world) del(key []byte) {
 		w.dirty = true
 	} else {
 		w.o.Count("del:" + obs)
-		if len(key) <= mpt.MaxKeyLength {
+		if w.lazy {
+			w.errs++
+			w.stale = true
+			w.o.Count("lazy:del:" + obs)
+		} else if len(key) <= mpt.MaxKeyLength {
 			w.o.Fail("del-rejected", w.k, "Delete(%x) = %s", key, obs)
 		}
 	}
@@ -161,6 +175,9 @@ func (w *world) batch(chs []change) {
 		return fmt.Sprintf("ok %d", n)
 	})
 	if strings.HasPrefix(obs, "ok") {
+		if obs != fmt.Sprintf("ok %d", len(keys)) { // PutBatch without an error has processed every element
+			w.o.Fail("batch-count", w.k, "PutBatch of %d elements returned %s without an error", len(keys), obs)
+		}
 		nd, np := 0, 0
 		for _, k := range keys {
 			if m[k] == nil {
@@ -178,6 +195,10 @@ func (w *world) batch(chs []change) {
 			w.o.Count("batch:only-deletes")
 		}
 		w.dirty = true
+	} else if w.lazy {
+		w.errs++
+		w.stale = true
+		w.o.Count("lazy:batch:" + obs)
 	} else {
 		w.o.Fail("batch-rejected", w.k, "PutBatch of %d = %s", len(keys), obs)
 	}
@@ -224,6 +245,18 @@ func (w *world) reopen() {
 	w.o.Line("reopen", obs)
 }
 
+// drop deletes the DataMPT record of node hash h from the store (a storage failure / missing node).
+func (w *world) drop(h []byte) {
+	obs := hx.Safe(func() string {
+		w.st.Delete(append([]byte{byte(storage.DataMPT)}, h...))
+		return "ok"
+	})
+	w.lazy = true
+	w.o.Count("drop")
+	w.o.Line("drop "+hx.Hex(h), obs)
+	w.note("x")
+}
+
 // ---- reads -----------------------------------------------------------------
 
 func sortedKeys(m map[string][]byte) []string {
@@ -257,11 +290,15 @@ func (w *world) freshRoots() (byPut, byBatch []byte) {
 }
 
 func (w *world) root() []byte {
+	if w.stale {
+		w.o.Count("lazy:root-skipped")
+		return nil
+	}
 	var rt []byte
 	obs := hx.Safe(func() string { rt = rootOf(w.tr); return "root " + hx.Hex(rt) })
 	w.o.Count("root")
 	w.o.Line("root", obs)
-	if rt != nil {
+	if rt != nil && !w.lazy {
 		a, b := w.freshRoots()
 		if !bytes.Equal(a, rt) {
 			w.o.Fail("root-history", w.k, "root after the op sequence %x != root of a fresh trie built by Puts %x (%d keys)", rt, a, len(w.ref))
@@ -289,6 +326,13 @@ func (w *world) get(key []byte) {
 	want, ok := w.ref[string(key)]
 	switch {
 	case len(key) > mpt.MaxKeyLength:
+	case w.lazy: // a present key may be unreachable now; a value that IS returned must be the stored one
+		if strings.HasPrefix(obs, "val ") && w.errs == 0 && (!ok || obs != "val "+hx.Hex(want)) {
+			w.o.Fail("get-mismatch", w.k, "Get(%x) = %s after a record was dropped, stored %x (present %v)", key, obs, want, ok)
+		}
+		if ok && obs == "none" {
+			w.o.Count("lazy:get:unreachable")
+		}
 	case ok && (obs != "val "+hx.Hex(want)):
 		w.o.Fail("get-mismatch", w.k, "Get(%x) = %s, stored %x", key, obs, want)
 	case !ok && obs != "none":
@@ -338,8 +382,8 @@ func (w *world) find(prefix, from []byte, max int) {
 		if from != nil && strings.Compare(k[len(prefix):], string(from)) <= 0 {
 			continue
 		}
-		if len(want) < max {
-			want = append(want, k)
+		if len(want) < max || (max == 0 && len(want) == 0) {
+			want = append(want, k) // max == 0: at most the first one (see below)
 		}
 	}
 	fs := "nil"
@@ -353,7 +397,11 @@ func (w *world) find(prefix, from []byte, max int) {
 	} else if obs == "panic" {
 		good = false
 	} else {
-		if len(res) != len(want) {
+		if max == 0 && len(res) == 0 {
+			// maxNum = 0: the stop test `count >= maxNum` (trie.go:635) fires after the first visited node,
+			// which is reported only if it is a leaf: nothing, or the first key in range
+			w.o.Count("find:max0:empty")
+		} else if len(res) != len(want) {
 			good = false
 		} else {
 			for i := range res {
@@ -633,6 +681,10 @@ func main() {
 		case k%8 == 7:
 			genDecoderCase(w)
 			o.Count("case:decoder")
+		case k%8 == 3:
+			w.setMode([]mpt.TrieMode{mpt.ModeAll, mpt.ModeLatest, mpt.ModeGC}[(k/8)%3])
+			genLazyCase(w)
+			o.Count("case:lazy")
 		default:
 			longCase = f.Tier == "thorough" && k%12 == 5
 			w.setMode([]mpt.TrieMode{mpt.ModeAll, mpt.ModeLatest, mpt.ModeGC}[(k/7)%3])
